@@ -40,10 +40,12 @@ def make_law_arrays(rng, n=None, lo=None, hi=None):
     return wav, chi
 
 
-def build_law(wav_um, chi):
+def build_law(wav_um, chi, wav_unit=None):
     from sedfitter.extinction import Extinction
     law = Extinction()
     law.wav = np.asarray(wav_um, float) * u.micron
+    if wav_unit is not None:
+        law.wav = law.wav.to(wav_unit)
     law.chi = np.asarray(chi, float) * u.cm ** 2 / u.g
     return law
 
